@@ -51,7 +51,7 @@ SIBLINGS = {
     STRINGS[4]: "CC{[$][$]C([$])C[$]}|uniform(12, 72)|COOC{[$][$]C[$][$]}|uniform(12, 72)|CO",
     STRINGS[5]: "[H]{[>][<]CCc1ccccc1[>][<]}|poisson(300)|CC{[>][<]CCC(=O)OC[>][<]}|log_normal(200, 1.2)|C",
 }
-OPS = ["P", "G1", "G2", "GG", "S", "E", "M", "MM", "RG", "SG", "AG", "FF", "EP", "SY", "GB"]
+OPS = ["P", "G1", "G2", "GG", "S", "E", "M", "MM", "MS", "RG", "SG", "AG", "FF", "EP", "SY", "GB"]
 SEEDS = (1, 2, 4, 5)  # seeds 4 and 5 give a negative first gaussian draw for the wide law of the third string
 
 _BASELINE_CODE = r"""
@@ -283,6 +283,16 @@ def apply_op(op, objs, inst, s):
                 m._gbmc_mirror = True
                 if getattr(o, "_gbmc_sibling", False):
                     m._gbmc_sibling = True
+                objs.append(m)
+    elif op == "MS":
+        # a live mirror image of the SIBLING object (a different molecule with the same fragments) - two mirrored molecules
+        # then generate in one process
+        sibs = [x for x in objs if getattr(x, "_gbmc_sibling", False) and not getattr(x, "_gbmc_mirror", False)]
+        if sibs and sum(1 for x in objs if getattr(x, "_gbmc_mirror", False)) < 2:
+            m = sibs[0].gen_mirror()
+            if m is not None:
+                m._gbmc_mirror = True
+                m._gbmc_sibling = True
                 objs.append(m)
     elif op == "RG":
         try:
